@@ -196,6 +196,31 @@ func c06Validator(w *World, r *Report) {
 			return true
 		})
 	}
+	// the table may also live in a package-level variable, or be handed to slices.Contains
+	if len(lits) == 0 {
+		seenTbl := map[ssa.Value]bool{}
+		addTbl := func(v ssa.Value) {
+			if seenTbl[v] {
+				return
+			}
+			seenTbl[v] = true
+			if el, ok := constStringSlice(w, v); ok {
+				lits = append(lits, el...)
+			}
+		}
+		for _, b := range fn.Blocks {
+			for _, in := range b.Instrs {
+				switch x := in.(type) {
+				case *ssa.IndexAddr:
+					addTbl(x.X)
+				case *ssa.Call:
+					if f, _ := calleeOf(x.Common()); f != nil && fnPkgPath(f) == "slices" && genericName(f) == "Contains" && len(x.Call.Args) == 2 {
+						addTbl(x.Call.Args[0])
+					}
+				}
+			}
+		}
+	}
 	sort.Strings(lits)
 	if len(lits) == 0 {
 		r.Unk("C06/PREDICATE", "validator/table", w.Pos(fn.Pos()), "no literal table of accepted --dry-run spellings found")
